@@ -21,6 +21,7 @@ macro_rules! dispatch {
             "C05" => $f::<props::c05::C05>($($arg),*),
             "C06" => $f::<props::c06::C06>($($arg),*),
             "C14" => $f::<props::c14::C14>($($arg),*),
+            "C17" => $f::<props::c17::C17>($($arg),*),
             "C19" => $f::<props::c19::C19>($($arg),*),
             "C20" => $f::<props::c20::C20>($($arg),*),
             other => {
